@@ -139,6 +139,23 @@ CLAIMED = {
              "specification. Not proved: the Encoding view classes (27 known findings list their broken reads by "
              "(encoding, read, failure kind, view)), VoxelGrid transforms.",
         technique="Lean 4 proof over hand-written executable model + differential correspondence (line protocol)"),
+    "C19": dict(
+        category="proof", design_ref="DESIGN.md 5 C19",
+        text="rotation_matrix, quaternion_matrix, quaternion_multiply, euler_matrix and quaternion_from_euler for all "
+             "24 conventions, transform_points (2D/3D) and translation_matrix are traced symbolically from "
+             "transformations.py on every run (angles as (c,s) symbols, unit axis and quaternion normalisation as "
+             "hypotheses) and Lean proves: rotation_matrix is a proper rotation fixing its axis and its point; "
+             "quaternion_matrix is a proper rotation for every non-zero q, equal for q and -q, multiplicative "
+             "w.r.t. quaternion_multiply, and equals rotation_matrix for (cos a/2, u sin a/2); each of the 24 "
+             "euler_matrix conventions equals the product of the three elementary rotations in the order/frame "
+             "its name says, and agrees with quaternion_from_euler; products of rotations are rotations; "
+             "transform_points is homogeneous multiplication. 59 theorems, all angles incl. gimbal lock. The "
+             "inverse maps (euler_from_matrix, quaternion_from_matrix, rotation_from_matrix, decompose) and the "
+             "svd/eig based functions are checked by exact-input numeric round trips (correspondence, partial).",
+        note="Trusted: Lean kernel (+propext/Quot.sound, Classical.choice in one helper), the symbolic tracer, "
+             "sin/cos as symbols with c^2+s^2=1, float64 on Pythagorean inputs. Known finding: decompose_matrix at "
+             "gimbal lock with shear/scale.",
+        technique="Lean 4 proof over polynomials regenerated by symbolic tracing + numeric round-trip correspondence"),
 }
 
 NOT_YET = "check not built yet in this build phase (DESIGN.md section 9 gives the order); no claim is made"
